@@ -631,3 +631,22 @@ def stack_address_roots(fn, local, max_steps=300):
                     for p in rvalue_places(r):
                         work.append(p["l"])
     return out
+
+
+def waker_refresh_ok(db, f):
+    """A function that stores the caller's (cloned) waker into a slot may skip the store only when the stored
+    waker `will_wake` the caller's: returns (applicable, ok). Applicable iff f (or its closures) clones a Waker."""
+    bodies = [f] + [db.fns[c] for c in f.closures() if c in db.fns]
+    clones = [(g, bb) for g in bodies for bb, t in g.calls()
+              if call_matches(t, r"core::clone::Clone::clone$") and t.get("ga") and t["ga"][0].endswith("task::wake::Waker")]
+    if not clones:
+        return False, True
+    uses_will_wake = any(calls(g, r"^core::task::wake::Waker::will_wake$") for g in bodies)
+    conditional = False
+    for g, bb in clones:
+        if not g.cfg.postdominates(bb, 0):
+            conditional = True
+        if g is not f:
+            # the clone sits in a closure: conditional unless the closure is called unconditionally (unknown) -> conservative
+            conditional = True
+    return True, (not conditional) or uses_will_wake
